@@ -123,6 +123,22 @@ def main():
             except LOUD:
                 case[nm] = None
                 dist("forward-mode-raises (allowed)")
+        # second order: the rules of the reverse rule for A (what reverse-over-reverse and forward-over-reverse differentiate)
+        u = onp.array([float(rng.randint(-2, 2)) for _ in range(na)]).reshape(sa)
+        us = u if sa else float(u)
+        case["u"] = [int(t) for t in u.ravel()]
+        vjp_of = lambda g_, b_: make_vjp(lambda z: f(anp, z, b_))(As)[0](g_)   # noqa: E731
+        for nm, thunk, shp in (("vvg", lambda: make_vjp(lambda g_: vjp_of(g_, Bs))(gs)[0](us), y.shape),
+                               ("vvB", lambda: make_vjp(lambda b_: vjp_of(gs, b_))(Bs)[0](us), tuple(sb)),
+                               ("fvB", lambda: make_jvp(lambda b_: vjp_of(gs, b_))(Bs)(dB if sb else float(dB))[1], tuple(sa))):
+            try:
+                r2 = onp.asarray(thunk())
+                ok = ok and r2.shape == shp
+                case[nm] = [int(t) for t in r2.ravel()] if r2.shape == shp else []
+                dist("second-order:" + nm)
+            except LOUD:
+                case[nm] = None
+                dist("second-order-raises (allowed)")
         case["ok"] = bool(ok)
         dist("bilinear:" + prim)
         out["cases"].append(case)
